@@ -5,7 +5,7 @@ func init() {
 		"schedules are sampled (generated programs, perturbations and exporter latencies, each program run twice under the race detector), not enumerated",
 		"visibility is asserted only for ForceFlush/Shutdown calls that returned nil and do not overlap a Shutdown call",
 		"the processor's dropped counter is read from its 'exporting spans … total_dropped' debug log line",
-		"a Shutdown that returns nil strictly after an earlier Shutdown call returned an error is held to the clauses in full only in the sequential sub-check bsp_lifecycle (known finding KF-C01-later-shutdown-nil-while-draining); elsewhere only to 'no span ended afterwards is exported' and 'every owed span is handed over once the processor has shut its exporter down'",
+		"a Shutdown that returns nil strictly after an earlier Shutdown call returned an error is held to the clauses in full only in the sequential sub-check bsp_lifecycle (this found the defect repaired by /repo 63802c8); elsewhere only to 'no span ended afterwards is exported' and 'every owed span is handed over once the processor has shut its exporter down'",
 		"through a TracerProvider with several processors only ForceFlush calls and the first Shutdown call that returned nil are asserted, for the batch processors registered at that moment; nothing is asserted about the value of a returned error",
 	))
 }
